@@ -1332,6 +1332,12 @@ class TTNS(TTNBase):
         -------
         The new TTNS.
         """
+        if not np.allclose(self.coeff, other.coeff):
+            # same convention as Mps.add: absorb the different prefactors into the tensors
+            self.scale(self.coeff, inplace=True)
+            other.scale(other.coeff, inplace=True)
+            self.coeff = 1
+            other.coeff = 1
         new = self.metacopy()
         for new_node, node1, node2 in zip(new, self, other):
             new_shape = []
